@@ -4,7 +4,7 @@ From Coq Require Import ZArith Bool List Lia.
 From MomoCommon Require Import GenPrelude.
 From C13 Require Gen_Open2N2 Gen_Open2N2_ops Gen_OpenN1 Gen_OpenN1_ops Gen_Open8 Open2N2_Proofs OpenN1_Proofs BucketOps.
 From C13 Require Import ProbeSeq OpenTable.
-From C13 Require HSAddRefine Gen_HSAdd Gen_BucketBase.
+From C13 Require HSAddRefine Gen_HSAdd Gen_BucketBase HSFindRefine Gen_HSFindIn.
 Import ListNotations.
 Local Open Scope Z_scope.
 
@@ -202,6 +202,129 @@ Proof.
   fold h in Hexn.
   destruct (first_free n Gen_Open2N2.GetNextBucketIndex BucketOps.O2.st BucketOps.O2.full s (h k) 0 (Z.to_nat (2 ^ n))) as [p|] eqn:Hf; [|fold s; rewrite Hf; reflexivity].
   exfalso. unfold o2_add, add, OpenTable.N in Hexn. rewrite Hf in Hexn. discriminate.
+Qed.
+
+(* ------------------------------------------------------------------ HashSet::pvFind regenerated = the model's find *)
+Definition o2_wasfull (b : BucketOps.O2.st) : bool := Gen_Open2N2_ops.WasFull (BucketOps.O2.ms b) (BucketOps.O2.sh b) (BucketOps.O2.hp b).
+Definition o2_gen_find n hash := HSFindRefine.gen_find n Gen_Open2N2.GetNextBucketIndex BucketOps.O2.st BucketOps.O2.dec o2_wasfull hash.
+Definition n1_gen_find mc n hash := HSFindRefine.gen_find n Gen_Open8.GetNextBucketIndex (Z -> Z) (n1_dec mc n) Gen_OpenN1_ops.WasFull hash.
+
+Lemma o2_dec_range mc b : BucketOps.O2.good mc b -> 0 <= BucketOps.O2.dec b < 2 ^ 64 - 1.
+Proof.
+  intros (He & _). unfold BucketOps.O2.dec. fold (Open2N2_Proofs.decode (BucketOps.O2.ms b)).
+  rewrite (Open2N2_Proofs.decode_val _ He). destruct He as (H0 & H1 & _ & H56).
+  assert (0 <= BucketOps.O2.ms b 1 / 4) by (apply Z.div_pos; lia).
+  assert (2 ^ (BucketOps.O2.ms b 1 / 4) <= 2 ^ 56) by (apply Z.pow_le_mono_r; lia).
+  assert (0 < 2 ^ (BucketOps.O2.ms b 1 / 4)) by (apply Z.pow_pos_nonneg; lia).
+  change (2 ^ 64) with (256 * 2 ^ 56). assert (0 < 2 ^ 56) by (apply Z.pow_pos_nonneg; lia). nia.
+Qed.
+
+Lemma n1_dec_range rv mc n b : 0 <= n <= 63 -> BucketOps.N1.good rv mc b -> 0 <= n1_dec mc n b < 2 ^ 64 - 1.
+Proof.
+  intros Hn (He & _). unfold n1_dec. fold (OpenN1_Proofs.bound mc b n).
+  destruct (Z.eq_dec (b mc) 255) as [Hi|Hf].
+  - rewrite (OpenN1_Proofs.bound_inf mc b n Hn Hi).
+    assert (0 < 2 ^ n) by (apply Z.pow_pos_nonneg; lia).
+    assert (2 ^ n <= 2 ^ 63) by (apply Z.pow_le_mono_r; lia).
+    change (2 ^ 64) with (2 * 2 ^ 63). lia.
+  - rewrite (OpenN1_Proofs.bound_fin mc b n He Hf). unfold OpenN1_Proofs.enc_inv in He.
+    assert (0 <= b mc / 8 <= 31) by (Z.div_mod_to_equations; lia).
+    pose proof (Z.mod_pos_bound (b mc) 8 ltac:(lia)).
+    assert (0 < 2 ^ (b mc / 8)) by (apply Z.pow_pos_nonneg; lia).
+    assert (2 ^ (b mc / 8) <= 2 ^ 31) by (apply Z.pow_le_mono_r; lia).
+    change (2 ^ 64) with (2 ^ 33 * 2 ^ 31). assert (0 < 2 ^ 31) by (apply Z.pow_pos_nonneg; lia).
+    change (2 ^ 33) with 8589934592. nia.
+Qed.
+
+Lemma o2_good_reachable mc n h ops i : 1 <= mc <= 3 -> 0 <= n <= 63 ->
+  BucketOps.O2.good mc (bd _ (fold_left (o2_step mc n h) ops (o2_empty mc)) i).
+Proof.
+  intros Hmc Hn. unfold o2_step, o2_empty.
+  apply (good_all_histories n Hn Gen_Open2N2.GetNextBucketIndex (Z.to_nat mc) h BucketOps.O2.st
+    (BucketOps.O2.good mc) BucketOps.O2.dec BucketOps.O2.updP (BucketOps.O2.upd_good mc n Hn) (BucketOps.O2.upd_covers mc n Hn)
+    (BucketOps.O2.upd_keeps mc n Hn) Arg BucketOps.O2.cnt (BucketOps.O2.addP mc) (BucketOps.O2.remP mc) BucketOps.O2.full (o2_full_spec mc Hmc)
+    (BucketOps.O2.upd_cnt mc n Hn) (o2_add_spec mc Hmc) (o2_rem_spec mc Hmc));
+    apply (BucketOps.O2.empty_good mc).
+Qed.
+
+Lemma n1_good_reachable rv mc n h ops i : 1 <= mc <= 7 -> 0 <= n <= 63 ->
+  BucketOps.N1.good rv mc (bd _ (fold_left (n1_step rv mc n h) ops (n1_empty mc)) i).
+Proof.
+  intros Hmc Hn. unfold n1_step, n1_empty.
+  apply (good_all_histories n Hn Gen_Open8.GetNextBucketIndex (Z.to_nat mc) h (Z -> Z)
+    (BucketOps.N1.good rv mc) (n1_dec mc n) (updN mc) (updN_good rv mc n Hmc Hn) (updN_covers rv mc n Hmc Hn) (updN_keeps rv mc n Hmc Hn)
+    Arg (BucketOps.N1.cnt rv mc) (BucketOps.N1.addP rv mc) (BucketOps.N1.remP rv mc) (Gen_OpenN1_ops.IsFull rv mc) (n1_full_spec rv mc Hmc)
+    (updN_cnt rv mc n Hmc Hn) (n1_add_spec rv mc n Hmc) (n1_rem_spec rv mc n Hmc));
+    apply (BucketOps.N1.empty_good rv mc Hmc).
+Qed.
+
+(* THE property, on the regenerated search loop: in every table reachable by insertions and removals, the regenerated
+   HashSet::pvFind reports every present key (in a bucket that holds it), and reports a key that is nowhere as absent *)
+Theorem open2n2_generated_find_finds_present mc n hash ops b k :
+  1 <= mc <= 3 -> 0 <= n <= 63 -> (forall k, 0 <= hash k) ->
+  let h := HSAddRefine.home n hash in
+  let s := fold_left (o2_step mc n h) ops (o2_empty mc) in
+  In k (bk _ s b) -> exists ic, o2_gen_find n hash s k = Ok (1, ic) /\ In k (bk _ s ic).
+Proof.
+  intros Hmc Hn Hh h s Hin.
+  assert (Hr : forall k, 0 <= h k < 2 ^ n) by (intros k'; apply (HSAddRefine.home_range n Hn); apply Hh).
+  apply (HSFindRefine.generated_find_finds n Gen_Open2N2.GetNextBucketIndex BucketOps.O2.st BucketOps.O2.dec o2_wasfull hash s k).
+  - apply (o2_dec_range mc). apply (o2_good_reachable mc n h ops _ Hmc Hn).
+  - intros b0. reflexivity.
+  - exact (open2n2_present_key_found mc n h ops b k Hmc Hn Hr Hin).
+Qed.
+
+Theorem open2n2_generated_find_absent mc n hash ops k :
+  1 <= mc <= 3 -> 0 <= n <= 63 ->
+  let h := HSAddRefine.home n hash in
+  let s := fold_left (o2_step mc n h) ops (o2_empty mc) in
+  (forall b, ~ In k (bk _ s b)) -> o2_gen_find n hash s k = Ok (0, hash k).
+Proof.
+  intros Hmc Hn h s Hno.
+  apply (HSFindRefine.generated_find_absent n Gen_Open2N2.GetNextBucketIndex BucketOps.O2.st BucketOps.O2.dec o2_wasfull hash s k).
+  - apply (o2_dec_range mc). apply (o2_good_reachable mc n h ops _ Hmc Hn).
+  - intros b0. reflexivity.
+  - destruct (find n Gen_Open2N2.GetNextBucketIndex (HSFindRefine.home n hash) BucketOps.O2.st BucketOps.O2.dec s k) eqn:Hf; [|reflexivity].
+    apply find_sound in Hf. destruct Hf as (b & Hb). destruct (Hno b Hb).
+Qed.
+
+Theorem open8_generated_find_finds_present rv mc n hash ops b k :
+  1 <= mc <= 7 -> 0 <= n <= 63 -> (forall k, 0 <= hash k) ->
+  let h := HSAddRefine.home n hash in
+  let s := fold_left (n1_step rv mc n h) ops (n1_empty mc) in
+  In k (bk _ s b) -> exists ic, n1_gen_find mc n hash s k = Ok (1, ic) /\ In k (bk _ s ic).
+Proof.
+  intros Hmc Hn Hh h s Hin.
+  assert (Hr : forall k, 0 <= h k < 2 ^ n) by (intros k'; apply (HSAddRefine.home_range n Hn); apply Hh).
+  apply (HSFindRefine.generated_find_finds n Gen_Open8.GetNextBucketIndex (Z -> Z) (n1_dec mc n) Gen_OpenN1_ops.WasFull hash s k).
+  - apply (n1_dec_range rv mc n _ Hn). apply (n1_good_reachable rv mc n h ops _ Hmc Hn).
+  - intros b0. reflexivity.
+  - exact (open8_present_key_found rv mc n h ops b k Hmc Hn Hr Hin).
+Qed.
+
+Theorem open8_generated_find_absent rv mc n hash ops k :
+  1 <= mc <= 7 -> 0 <= n <= 63 ->
+  let h := HSAddRefine.home n hash in
+  let s := fold_left (n1_step rv mc n h) ops (n1_empty mc) in
+  (forall b, ~ In k (bk _ s b)) -> n1_gen_find mc n hash s k = Ok (0, hash k).
+Proof.
+  intros Hmc Hn h s Hno.
+  apply (HSFindRefine.generated_find_absent n Gen_Open8.GetNextBucketIndex (Z -> Z) (n1_dec mc n) Gen_OpenN1_ops.WasFull hash s k).
+  - apply (n1_dec_range rv mc n _ Hn). apply (n1_good_reachable rv mc n h ops _ Hmc Hn).
+  - intros b0. reflexivity.
+  - destruct (find n Gen_Open8.GetNextBucketIndex (HSFindRefine.home n hash) (Z -> Z) (n1_dec mc n) s k) eqn:Hf; [|reflexivity].
+    apply find_sound in Hf. destruct Hf as (b & Hb). destruct (Hno b Hb).
+Qed.
+
+(* the regenerated search examines exactly home, probe 1, ..., probe GetMaxProbe(home): same verdict as the model on ANY table
+   whose home bucket decodes to a representable bound (no reachability needed) *)
+Theorem open2n2_generated_find_is_model n hash s k r ic :
+  0 <= n <= 63 -> 0 <= BucketOps.O2.dec (bd _ s (HSFindRefine.home n hash k)) < 2 ^ 64 - 1 ->
+  o2_gen_find n hash s k = Ok (r, ic) ->
+  (r <> 0 <-> o2_find n (HSFindRefine.home n hash) s k = true) /\ (r <> 0 -> In k (bk _ s ic)).
+Proof.
+  intros Hn HD. apply (HSFindRefine.generated_find_is_table_find n Gen_Open2N2.GetNextBucketIndex BucketOps.O2.st BucketOps.O2.dec o2_wasfull hash s k r ic HD).
+  intros b0. reflexivity.
 Qed.
 
 (* non-vacuity: a 4-bucket Open2N2<3> table, constant hash: twelve keys fill it, the thirteenth add fails,
